@@ -31,17 +31,27 @@ def shards(tier):
             for kinds in (["plurality"], ["super"], ["irv"]):
                 out.append({"name": f"{at[:4]}-{'style' if us else 'nostyle'}-{kinds[0]}", "audit_type": at, "use_style": us,
                             "kinds": kinds, "examples": n})
+    # thousands of cards (a generated scenario repeated up to 4097 .. 12345 cards): few cases, each costs about a second
+    for at, us, kinds in (("CARD_COMPARISON", True, ["plurality"]), ("ONEAUDIT", False, ["super"]), ("CARD_COMPARISON", False, ["irv"])):
+        out.append({"name": f"{at[:4]}-{'style' if us else 'nostyle'}-{kinds[0]}-big", "audit_type": at, "use_style": us,
+                    "kinds": kinds, "examples": 4 if tier == "quick" else 60, "big": True})
     return out
 
 
 def strategy(shard):
-    return sa.scenario(n_contests=(1, 2), kinds=shard["kinds"], audit_types=(shard["audit_type"],), use_style=shard["use_style"])
+    base = sa.scenario(n_contests=(1, 2), kinds=shard["kinds"], audit_types=(shard["audit_type"],), use_style=shard["use_style"])
+    if shard.get("big"):
+        return st.tuples(base, st.sampled_from([4097, 4500, 8193, 10001, 12345]), st.integers(0, 30)).map(lambda t: dict(t[0], size=t[1] + t[2]))
+    return base
 
 
 def evaluate(case, out):
     import numpy as np
 
     us = case["use_style"]
+    if case.get("size"):
+        case = sa.expand(case, case["size"])
+        out.cls("thousands-of-cards")
     try:
         audit, contests, cvrs, mvrs = sa.build(case)
     except Exception as e:  # noqa
